@@ -317,6 +317,9 @@ class LayerSet(BaseObject):
                 if progressBar is not None:
                     progressBar.update()
             writer.writeLayerContents(self.layerOrder)
+        # everything has been written. (clearing a layer's dirty
+        # flag above re-raised this flag through _layerDirtyStateChange.)
+        self.dirty = False
         # reset the action history
         self._layerActionHistory = []
         # if < UFO 3 was written, flag all of the non-default layers as "new"
